@@ -5,7 +5,7 @@
 
    Parts:
    1. data: outbound messages as far as gorwp looks at them, bindings, handlers;
-   2. the pure dispatcher  dispatch : bindings -> pstate -> omsg -> list action * pstate
+   2. the pure dispatcher  dispatch : bindings -> pstate -> omsg -> list action * pstate * bindings
       (procesMessagesFromPanel, one message);
    3. the reader (readFromPanel) as a byte-wise automaton over an input script of
       segments / deadline expiry / close, with gorwp's own framing rules;
@@ -55,8 +55,15 @@ Inductive titem :=
 | TFb (id st : Z)           (* a state sent by a handler or by user code (Set* / SendRawState) *)
 | TInit.                    (* the initial request of Connect *)
 
-(* A handler, seen from gorwp: an identity and what it sends to the panel when invoked. *)
-Record handler := mkHandler { h_tag : Z; h_sends : list titem }.
+(* A handler, seen from gorwp: an identity, the states it sends to the panel when invoked (Set* / SendRawState:
+   the API offers a handler no way to send a flow message), and the Bind* calls it then makes itself - for its
+   own id or for others ("shift" keys, one-shot handlers re-binding themselves). *)
+Inductive handler :=
+| mkHandler (tag : Z) (sends : list (Z * Z)) (binds : list (kind * Z * handler)).
+Definition h_tag (h : handler) : Z := match h with mkHandler t _ _ => t end.
+Definition h_sends (h : handler) : list (Z * Z) := match h with mkHandler _ s _ => s end.
+Definition h_binds (h : handler) : list (kind * Z * handler) := match h with mkHandler _ _ b => b end.
+Definition fb_items (h : handler) : list titem := map (fun p => TFb (fst p) (snd p)) (h_sends h).
 
 (* handler invocation with the arguments gorwp passes *)
 Inductive callrec :=
@@ -125,27 +132,42 @@ Definition calls_of_event (b : bindings) (e : event) : list (callrec * handler) 
   (match lookup b KAbsolute id, e_abs e with Some h, Some v => [(CValue KAbsolute id (h_tag h) v, h)] | _, _ => [] end) ++
   (match lookup b KIntensity id, e_spd e with Some h, Some v => [(CValue KIntensity id (h_tag h) v, h)] | _, _ => [] end).
 
-Inductive action := Call (c : callrec) | Send (t : titem).
+Definition reg := (kind * Z * handler)%type.
+
+Inductive action := Call (c : callrec) | Send (t : titem) | Rebind (r : reg).
 
 Definition acts_of_calls (l : list (callrec * handler)) : list action :=
-  flat_map (fun ch => Call (fst ch) :: map Send (h_sends (snd ch))) l.
+  flat_map (fun ch => Call (fst ch) :: map Send (fb_items (snd ch)) ++ map Rebind (h_binds (snd ch))) l.
 
-(* procesMessagesFromPanel on one message with the maps unchanged meanwhile *)
-Definition dispatch (b : bindings) (st : pstate) (m : omsg) : list action * pstate :=
-  ((if m_flow m =? 1 then [Send TAck] else []) ++
-   flat_map (fun e => acts_of_calls (calls_of_event b e)) (m_events m),
-   upd_state st m).
+(* the registrations the invoked handlers make, in invocation order; applied to the newest-first maps *)
+Definition binds_of_calls (l : list (callrec * handler)) : list reg := flat_map (fun ch => h_binds (snd ch)) l.
+Definition apply_binds (b : bindings) (rs : list reg) : bindings := rev rs ++ b.
 
-Fixpoint dispatch_all (b : bindings) (st : pstate) (ms : list omsg) : list action * pstate :=
+(* the events of one message: every event is looked up in the maps as the handlers of the earlier events left them *)
+Fixpoint dispatch_events (b : bindings) (evs : list event) : list action * bindings :=
+  match evs with
+  | [] => ([], b)
+  | e :: r =>
+    let chs := calls_of_event b e in
+    let '(a, b') := dispatch_events (apply_binds b (binds_of_calls chs)) r in
+    (acts_of_calls chs ++ a, b')
+  end.
+
+(* procesMessagesFromPanel on one message (no Bind* from other goroutines meanwhile) *)
+Definition dispatch (b : bindings) (st : pstate) (m : omsg) : list action * pstate * bindings :=
+  let '(a, b') := dispatch_events b (m_events m) in
+  ((if m_flow m =? 1 then [Send TAck] else []) ++ a, upd_state st m, b').
+
+Fixpoint dispatch_all (b : bindings) (st : pstate) (ms : list omsg) : list action * pstate * bindings :=
   match ms with
-  | [] => ([], st)
-  | m :: r => let '(a, st1) := dispatch b st m in let '(a', st2) := dispatch_all b st1 r in (a ++ a', st2)
+  | [] => ([], st, b)
+  | m :: r => let '(a, st1, b1) := dispatch b st m in let '(a', st2, b2) := dispatch_all b1 st1 r in (a ++ a', st2, b2)
   end.
 
 Definition calls_of (l : list action) : list callrec :=
-  flat_map (fun a => match a with Call c => [c] | Send _ => [] end) l.
+  flat_map (fun a => match a with Call c => [c] | _ => [] end) l.
 Definition sends_of (l : list action) : list titem :=
-  flat_map (fun a => match a with Send t => [t] | Call _ => [] end) l.
+  flat_map (fun a => match a with Send t => [t] | _ => [] end) l.
 
 (* ------------------------------------------------------------------ 3. reader *)
 (* what the environment does to the connection, in order *)
@@ -237,12 +259,13 @@ Inductive dop :=
 | DSend (t : titem)                    (* rp.toPanel <- ... : blocks while the queue is full *)
 | DState (m : omsg)                    (* the three locked state updates of one message *)
 | DEvent (e : event)                   (* look the five maps up for this event (under the mutex) *)
-| DCall (c : callrec).                 (* invoke one handler *)
+| DCall (c : callrec)                  (* invoke one handler *)
+| DBind (r : reg).                     (* the running handler calls Bind* (takes the mutex for writing) *)
 
 Definition ops_of_msg (m : omsg) : list dop :=
   (if m_flow m =? 1 then [DSend TAck] else []) ++ DState m :: map DEvent (m_events m).
 Definition ops_of_calls (l : list (callrec * handler)) : list dop :=
-  flat_map (fun ch => DCall (fst ch) :: map DSend (h_sends (snd ch))) l.
+  flat_map (fun ch => DCall (fst ch) :: map DSend (fb_items (snd ch)) ++ map DBind (h_binds (snd ch))) l.
 
 Record sys := mkSys {
   s_in     : list rin;          (* what the environment will still do to the connection *)
@@ -260,7 +283,8 @@ Record sys := mkSys {
   (* observation logs *)
   s_trace  : list callrec;                  (* handler invocations, in order *)
   s_wire   : list titem;                    (* written to the socket, in order *)
-  s_evlog  : list (event * bindings)        (* events looked up so far, each with the maps it saw *)
+  s_evlog  : list (event * bindings);       (* events looked up so far, each with the maps it saw *)
+  s_blog   : list reg                       (* registrations made so far (handlers and other goroutines), in order *)
 }.
 
 Inductive choice :=
@@ -283,7 +307,7 @@ Section System.
 
   Definition room (q : list titem) : bool := Nat.ltb (length q) cap.
 
-  Definition set_ops (s : sys) ops := mkSys (s_in s) (s_rd s) (s_rpend s) (s_rexit s) (s_from s) (s_to s) ops (s_dalive s) (s_walive s) (s_cancel s) (s_b s) (s_st s) (s_trace s) (s_wire s) (s_evlog s).
+  Definition set_ops (s : sys) ops := mkSys (s_in s) (s_rd s) (s_rpend s) (s_rexit s) (s_from s) (s_to s) ops (s_dalive s) (s_walive s) (s_cancel s) (s_b s) (s_st s) (s_trace s) (s_wire s) (s_evlog s) (s_blog s).
 
   Definition step (s : sys) (c : choice) : option sys :=
     match c with
@@ -293,25 +317,25 @@ Section System.
         match s_rd s with
         | RDead => None
         | _ => let '(rd', ds) := rstep unm dec (s_rd s) i in
-               Some (mkSys rest rd' ds false (s_from s) (s_to s) (s_ops s) (s_dalive s) (s_walive s) (s_cancel s) (s_b s) (s_st s) (s_trace s) (s_wire s) (s_evlog s))
+               Some (mkSys rest rd' ds false (s_from s) (s_to s) (s_ops s) (s_dalive s) (s_walive s) (s_cancel s) (s_b s) (s_st s) (s_trace s) (s_wire s) (s_evlog s) (s_blog s))
         end
       | _, _, _ => None
       end
     | CPush =>
       match s_rpend s with
       | d :: r => if Nat.ltb (length (s_from s)) cap
-                  then Some (mkSys (s_in s) (s_rd s) r (s_rexit s) (s_from s ++ [d]) (s_to s) (s_ops s) (s_dalive s) (s_walive s) (s_cancel s) (s_b s) (s_st s) (s_trace s) (s_wire s) (s_evlog s))
+                  then Some (mkSys (s_in s) (s_rd s) r (s_rexit s) (s_from s ++ [d]) (s_to s) (s_ops s) (s_dalive s) (s_walive s) (s_cancel s) (s_b s) (s_st s) (s_trace s) (s_wire s) (s_evlog s) (s_blog s))
                   else None
       | [] => None
       end
     | CRExit =>
       match s_rd s, s_rpend s, s_rexit s with
-      | RDead, [], false => Some (mkSys (s_in s) RDead [] true (s_from s) (s_to s) (s_ops s) (s_dalive s) (s_walive s) true (s_b s) (s_st s) (s_trace s) (s_wire s) (s_evlog s))
+      | RDead, [], false => Some (mkSys (s_in s) RDead [] true (s_from s) (s_to s) (s_ops s) (s_dalive s) (s_walive s) true (s_b s) (s_st s) (s_trace s) (s_wire s) (s_evlog s) (s_blog s))
       | _, _, _ => None
       end
     | CTake =>
       match s_ops s, s_from s, s_dalive s with
-      | [], d :: r, true => Some (mkSys (s_in s) (s_rd s) (s_rpend s) (s_rexit s) r (s_to s) (flat_map ops_of_msg d) true (s_walive s) (s_cancel s) (s_b s) (s_st s) (s_trace s) (s_wire s) (s_evlog s))
+      | [], d :: r, true => Some (mkSys (s_in s) (s_rd s) (s_rpend s) (s_rexit s) r (s_to s) (flat_map ops_of_msg d) true (s_walive s) (s_cancel s) (s_b s) (s_st s) (s_trace s) (s_wire s) (s_evlog s) (s_blog s))
       | _, _, _ => None
       end
     | CDisp =>
@@ -319,39 +343,40 @@ Section System.
         match s_ops s with
         | [] => None
         | DSend t :: r => if room (s_to s)
-                          then Some (mkSys (s_in s) (s_rd s) (s_rpend s) (s_rexit s) (s_from s) (s_to s ++ [t]) r true (s_walive s) (s_cancel s) (s_b s) (s_st s) (s_trace s) (s_wire s) (s_evlog s))
+                          then Some (mkSys (s_in s) (s_rd s) (s_rpend s) (s_rexit s) (s_from s) (s_to s ++ [t]) r true (s_walive s) (s_cancel s) (s_b s) (s_st s) (s_trace s) (s_wire s) (s_evlog s) (s_blog s))
                           else None
-        | DState m :: r => Some (mkSys (s_in s) (s_rd s) (s_rpend s) (s_rexit s) (s_from s) (s_to s) r true (s_walive s) (s_cancel s) (s_b s) (upd_state (s_st s) m) (s_trace s) (s_wire s) (s_evlog s))
-        | DEvent e :: r => Some (mkSys (s_in s) (s_rd s) (s_rpend s) (s_rexit s) (s_from s) (s_to s) (ops_of_calls (calls_of_event (s_b s) e) ++ r) true (s_walive s) (s_cancel s) (s_b s) (s_st s) (s_trace s) (s_wire s) (s_evlog s ++ [(e, s_b s)]))
-        | DCall c :: r => Some (mkSys (s_in s) (s_rd s) (s_rpend s) (s_rexit s) (s_from s) (s_to s) r true (s_walive s) (s_cancel s) (s_b s) (s_st s) (s_trace s ++ [c]) (s_wire s) (s_evlog s))
+        | DState m :: r => Some (mkSys (s_in s) (s_rd s) (s_rpend s) (s_rexit s) (s_from s) (s_to s) r true (s_walive s) (s_cancel s) (s_b s) (upd_state (s_st s) m) (s_trace s) (s_wire s) (s_evlog s) (s_blog s))
+        | DEvent e :: r => Some (mkSys (s_in s) (s_rd s) (s_rpend s) (s_rexit s) (s_from s) (s_to s) (ops_of_calls (calls_of_event (s_b s) e) ++ r) true (s_walive s) (s_cancel s) (s_b s) (s_st s) (s_trace s) (s_wire s) (s_evlog s ++ [(e, s_b s)]) (s_blog s))
+        | DBind rg :: r => Some (mkSys (s_in s) (s_rd s) (s_rpend s) (s_rexit s) (s_from s) (s_to s) r true (s_walive s) (s_cancel s) (rg :: s_b s) (s_st s) (s_trace s) (s_wire s) (s_evlog s) (s_blog s ++ [rg]))
+        | DCall c :: r => Some (mkSys (s_in s) (s_rd s) (s_rpend s) (s_rexit s) (s_from s) (s_to s) r true (s_walive s) (s_cancel s) (s_b s) (s_st s) (s_trace s ++ [c]) (s_wire s) (s_evlog s) (s_blog s))
         end
       else None
     | CDExit =>
       match s_ops s, s_dalive s, s_cancel s with
-      | [], true, true => Some (mkSys (s_in s) (s_rd s) (s_rpend s) (s_rexit s) (s_from s) (s_to s) [] false (s_walive s) true (s_b s) (s_st s) (s_trace s) (s_wire s) (s_evlog s))
+      | [], true, true => Some (mkSys (s_in s) (s_rd s) (s_rpend s) (s_rexit s) (s_from s) (s_to s) [] false (s_walive s) true (s_b s) (s_st s) (s_trace s) (s_wire s) (s_evlog s) (s_blog s))
       | _, _, _ => None
       end
     | CWrite =>
       match s_to s, s_walive s with
-      | t :: r, true => Some (mkSys (s_in s) (s_rd s) (s_rpend s) (s_rexit s) (s_from s) r (s_ops s) (s_dalive s) true (s_cancel s) (s_b s) (s_st s) (s_trace s) (s_wire s ++ [t]) (s_evlog s))
+      | t :: r, true => Some (mkSys (s_in s) (s_rd s) (s_rpend s) (s_rexit s) (s_from s) r (s_ops s) (s_dalive s) true (s_cancel s) (s_b s) (s_st s) (s_trace s) (s_wire s ++ [t]) (s_evlog s) (s_blog s))
       | _, _ => None
       end
     | CTick =>
-      if s_walive s then Some (mkSys (s_in s) (s_rd s) (s_rpend s) (s_rexit s) (s_from s) (s_to s) (s_ops s) (s_dalive s) true (s_cancel s) (s_b s) (s_st s) (s_trace s) (s_wire s ++ [TPing]) (s_evlog s))
+      if s_walive s then Some (mkSys (s_in s) (s_rd s) (s_rpend s) (s_rexit s) (s_from s) (s_to s) (s_ops s) (s_dalive s) true (s_cancel s) (s_b s) (s_st s) (s_trace s) (s_wire s ++ [TPing]) (s_evlog s) (s_blog s))
       else None
     | CWExit =>
       match s_walive s, s_cancel s with
-      | true, true => Some (mkSys (s_in s) (s_rd s) (s_rpend s) (s_rexit s) (s_from s) (s_to s) (s_ops s) (s_dalive s) false true (s_b s) (s_st s) (s_trace s) (s_wire s) (s_evlog s))
+      | true, true => Some (mkSys (s_in s) (s_rd s) (s_rpend s) (s_rexit s) (s_from s) (s_to s) (s_ops s) (s_dalive s) false true (s_b s) (s_st s) (s_trace s) (s_wire s) (s_evlog s) (s_blog s))
       | _, _ => None
       end
     | CBind k id h =>
-      Some (mkSys (s_in s) (s_rd s) (s_rpend s) (s_rexit s) (s_from s) (s_to s) (s_ops s) (s_dalive s) (s_walive s) (s_cancel s) (bind (s_b s) k id h) (s_st s) (s_trace s) (s_wire s) (s_evlog s))
+      Some (mkSys (s_in s) (s_rd s) (s_rpend s) (s_rexit s) (s_from s) (s_to s) (s_ops s) (s_dalive s) (s_walive s) (s_cancel s) (bind (s_b s) k id h) (s_st s) (s_trace s) (s_wire s) (s_evlog s) (s_blog s ++ [(k, id, h)]))
     | CUser t =>
       if room (s_to s)
-      then Some (mkSys (s_in s) (s_rd s) (s_rpend s) (s_rexit s) (s_from s) (s_to s ++ [t]) (s_ops s) (s_dalive s) (s_walive s) (s_cancel s) (s_b s) (s_st s) (s_trace s) (s_wire s) (s_evlog s))
+      then Some (mkSys (s_in s) (s_rd s) (s_rpend s) (s_rexit s) (s_from s) (s_to s ++ [t]) (s_ops s) (s_dalive s) (s_walive s) (s_cancel s) (s_b s) (s_st s) (s_trace s) (s_wire s) (s_evlog s) (s_blog s))
       else None
     | CCancel =>
-      Some (mkSys (s_in s) (s_rd s) (s_rpend s) (s_rexit s) (s_from s) (s_to s) (s_ops s) (s_dalive s) (s_walive s) true (s_b s) (s_st s) (s_trace s) (s_wire s) (s_evlog s))
+      Some (mkSys (s_in s) (s_rd s) (s_rpend s) (s_rexit s) (s_from s) (s_to s) (s_ops s) (s_dalive s) (s_walive s) true (s_b s) (s_st s) (s_trace s) (s_wire s) (s_evlog s) (s_blog s))
     end.
 
   (* a schedule is a list of choices; a choice that is not enabled is skipped *)
@@ -362,7 +387,7 @@ Section System.
     end.
 
   Definition sys0 (binary : bool) (b : bindings) (ins : list rin) : sys :=
-    mkSys ins (rinit binary) [] false [] [] [] true true false b st0 [] [] [].
+    mkSys ins (rinit binary) [] false [] [] [] true true false b st0 [] [] [] [].
 
   (* the steps of the three goroutines themselves (no environment input, no other goroutine) *)
   Definition internal : list choice := [CWrite; CDisp; CTake; CPush].
@@ -395,6 +420,6 @@ Fixpoint connect_ok (b : bindings) (st : pstate) (evs : list (Z * iev)) : bool :
   initialised st ||
   match evs with
   | [] => false
-  | (t, IDeliver d) :: r => if t <? init_window then connect_ok b (snd (dispatch_all b st d)) r else false
+  | (t, IDeliver d) :: r => if t <? init_window then (let '(_, st', b') := dispatch_all b st d in connect_ok b' st' r) else false
   | (t, ILost) :: r => false
   end.
